@@ -35,7 +35,36 @@ def ctor_fields(F, adt, names=('new', 'default')):
             for e in r.events:
                 if e['kind'] == 'literal' and e['adt'] == adt:
                     return b, dict(zip(e['fnames'], e['vals']))
+    # a parameter-free constructor that delegates to a sibling constructor (`Self::with_backend(Vec::new())`)
+    for b in F.bodies:
+        if b.promoted is not None or b.self_adt != adt or b.name not in names or b.arg_count != 0:
+            continue
+        ev, paths = rules.evaluate(b)
+        rs = [r for r in paths or [] if r.end == 'return']
+        if len(rs) == 1 and rs[0].ret[0] == 'call':
+            cb = F.by_def.get(rs[0].ret[1])
+            if cb is not None and cb.self_adt == adt:
+                _, cp = rules.evaluate(cb)
+                for r in cp or []:
+                    if r.end != 'return':
+                        continue
+                    for e in r.events:
+                        if e['kind'] == 'literal' and e['adt'] == adt:
+                            m = {('arg', i + 1): a for i, a in enumerate(rs[0].ret[2])}
+                            return b, {fn: sym.subst(v, m) for fn, v in zip(e['fnames'], e['vals'])}
     return None, None
+
+
+def default_value_of(F, ty_s):
+    """What `<T as Default>::default()` returns for a crate-local type (derived or hand-written impl), or None."""
+    adt = ty_s.split('<')[0]
+    for b in F.bodies:
+        if b.promoted is None and b.name == 'default' and b.impl_trait == 'core::default::Default' and b.self_adt == adt:
+            _, paths = rules.evaluate(b)
+            rs = [r for r in paths or [] if r.end == 'return']
+            if len(rs) == 1:
+                return rs[0].ret
+    return None
 
 
 def norm_default(t):
@@ -89,6 +118,11 @@ def check_reset(ctx, F):
                         continue
                     missing.append('%s (modified by %s, constructors store %s)' % (fname, calls[0]['callee'] if calls else '?', sym.show(fresh)[:50]))
                     continue
+                if norm_default(fin) != norm_default(fresh) and norm_default(fin) == ('fresh',):
+                    # `Default::default()` of a crate-local field type: compare what that impl returns
+                    dv = default_value_of(F, F.ty_s(_field_ty(F, adt, fname)))
+                    if dv is not None and norm_default(dv) == norm_default(fresh):
+                        continue
                 if norm_default(fin) != norm_default(fresh):
                     missing.append('%s := %s but constructors store %s' % (fname, sym.show(fin)[:50], sym.show(fresh)[:50]))
             if missing:
@@ -96,8 +130,7 @@ def check_reset(ctx, F):
                         'not restored to the constructor state: ' + '; '.join(missing) + ' - a cleared coder behaves differently from a fresh one', key=key, loc=rules.loc(cb))
             else:
                 ctx.ok('R4', 'clear() resets every field', cb.defpath, 'all %d fields reset to what %s stores' % (len(fields), ctor.name), key=key)
-    if n < 2:
-        ctx.bad('R4', 'floor: clear() methods', 'stream', 'only %d found' % n, key='R4/floor/clear')
+    ctx.floor('R4', 'floor: clear() methods', 'stream', n, 2, 'only %d found' % n, key='R4/floor/clear')
 
 
 def _field_ty(F, adt, fname):
